@@ -261,7 +261,7 @@ def step_table(base, ops):
     elif op == 2: out += [(2, a, b) for a in range(nn - 1) for b in range(6)]
     elif op == 3: out += [(3, a, 0) for a in range(8)]
     elif op == 4: out += [(4, a, b) for a in (0, 3) for b in range(4)]
-    elif op == 5: out += [(2, a, b) for a in range(nn - 1) for b in (0, 4)]   # rename to a fresh name / onto a placeholder's id
+    elif op == 5: out += [(2, a, b) for a in range(nn - 1) for b in (0, 4, 5)]   # rename to a fresh name / onto a placeholder's id / to the placeholder '*'
   return out
 
 
